@@ -51,6 +51,8 @@ def parse_params(s):
 def parse_header(path, rel):
     raw = open(path).read()
     raw = re.sub(r'\\\r?\n', ' ', raw)          # join backslash-continued lines (multi-line #if / #define)
+    # regions guarded by the verification hook define are not part of the public API
+    raw = re.sub(r'^[ \t]*#[ \t]*ifdef[ \t]+COVESA_OPEN1722_VERIF\b.*?^[ \t]*#[ \t]*endif[^\n]*$', '', raw, flags=re.S | re.M)
     text = strip_comments(raw)
     info = {'path': rel, 'macros': {}, 'enums': {}, 'enum_order': [], 'protos': [], 'aliases': {},
             'structs': []}
